@@ -490,7 +490,8 @@ fn raw_probe_all(trie: &sudachi::dic::lexicon::trie::Trie, keys: &[(Vec<u8>, u32
             let mut t = pre.clone();
             t.push(k);
             t.push(b'a');
-            let r = catch(|| trie.common_prefix_iterator(&t, 0).map(|e| (e.value, e.end)).collect::<Vec<_>>());
+            // (`as usize`: whatever integer type the entry carries)
+            let r = catch(|| trie.common_prefix_iterator(&t, 0).map(|e| (e.value, e.end as usize)).collect::<Vec<(u32, usize)>>());
             let mut want: Vec<(u32, usize)> = keys.iter().filter(|(key, _)| t.starts_with(key)).map(|(key, v)| (*v, key.len())).collect();
             want.sort_by_key(|x| x.1);
             match r {
@@ -758,7 +759,7 @@ fn run_case(sink: &mut Sink, csvs: &[String], texts: &[String], exacts: &[String
                 let mut t = pre.clone();
                 t.push(k);
                 t.push(b'a');
-                let r = catch(|| loaded.lexicon_set.lookup(&t, 0).map(|e| (e.word_id.as_raw(), e.end)).collect::<Vec<_>>());
+                let r = catch(|| loaded.lexicon_set.lookup(&t, 0).map(|e| (e.word_id.as_raw(), e.end as usize)).collect::<Vec<_>>());
                 let nv = naive(&all, &t, 0);
                 match r {
                     Ok(mut v) => {
